@@ -1056,6 +1056,44 @@ static void h_c_free(const char *cmd, cfg_t *cfg)
 	h_std(cmd, "rc=%d", rc);
 }
 
+/* parse_fpfail C HEX: cfg_parse_fp on a stream that delivers the bytes and then fails with EIO */
+struct h_failing { const char *p; size_t left; };
+static ssize_t h_failing_read(void *cookie, char *buf, size_t size)
+{
+	struct h_failing *f = cookie;
+	size_t n = f->left < size ? f->left : size;
+
+	if (!n) {
+		errno = EIO;
+		return -1;
+	}
+	memcpy(buf, f->p, n);
+	f->p += n;
+	f->left -= n;
+	return (ssize_t)n;
+}
+
+static void h_c_parse_fpfail(const char *cmd, cfg_t *cfg)
+{
+	size_t len;
+	char *text = h_bytes(2, &len);
+	struct h_failing f;
+	cookie_io_functions_t io = { h_failing_read, NULL, NULL, NULL };
+	FILE *fp;
+	int rc = 0;
+
+	if (h_bad)
+		return;
+	f.p = text ? text : "";
+	f.left = text ? len : 0;
+	fp = fopencookie(&f, "r", io);
+	if (!fp)
+		h_die("fopencookie");
+	H_LIB(rc = cfg_parse_fp(cfg, fp));
+	fclose(fp);
+	h_std(cmd, "rc=%d", rc);
+}
+
 /* searchpath parse_buf parse_file parse_fp */
 static void h_c_parse(const char *cmd, cfg_t *cfg)
 {
@@ -1582,7 +1620,7 @@ static const struct h_cmd {
 	{ "failat", h_c_ambient, 0, 2, 2 },
 	{ "init", h_c_init, 0, 4, 4 }, { "poison", h_c_poison, 0, 2, 2 }, { "free", h_c_free, 1, 2, 2 },
 	{ "searchpath", h_c_parse, 1, 3, 3 }, { "parse_buf", h_c_parse, 1, 3, 3 },
-	{ "parse_file", h_c_parse, 1, 3, 3 }, { "parse_fp", h_c_parse, 1, 3, 3 }, { "lex", h_c_lex, 0, 2, 2 },
+	{ "parse_file", h_c_parse, 1, 3, 3 }, { "parse_fp", h_c_parse, 1, 3, 3 }, { "parse_fpfail", h_c_parse_fpfail, 1, 3, 3 }, { "lex", h_c_lex, 0, 2, 2 },
 	{ "dump", h_c_dump, 1, 2, 2 }, { "getopt", h_c_get, 1, 3, 3 }, { "getsec", h_c_get, 1, 3, 3 },
 	{ "size", h_c_get, 1, 3, 3 }, { "title", h_c_get, 1, 3, 3 },
 	{ "setint", h_c_set, 1, 5, 5 }, { "setfloat", h_c_set, 1, 5, 5 }, { "setbool", h_c_set, 1, 5, 5 },
